@@ -23,7 +23,7 @@
 (*   tile[<<x,y,z>>]      = meta tile bbox, coverage.contains/intersects   *)
 (* and, computed INDEPENDENTLY of grid walk and walker (brute force over   *)
 (* all meta tiles of the seeded levels with an exact intersection test),   *)
-(*   must, mustcoarse, mustnot  (see CompleteRunExact below).              *)
+(*   must, mustcoarse, allowed  (see CompleteRunExact, NoOutside below).   *)
 (* Boxes are 4-tuples of integers (lattice coordinates, or ranks of the    *)
 (* float coordinates for recorded real grids: max/min commute with ranks). *)
 (***************************************************************************)
@@ -239,8 +239,9 @@ FinalReport(save) ==
 
 \* the process dies (KeyboardInterrupt, SeedInterrupted, kill): only the progress file and the work handed
 \* over so far survive
+\* (also after the final report: mapproxy-seed removes the progress file only after all tasks are done)
 Interrupt ==
-  /\ phase = "run" /\ nint < MaxInterrupts
+  /\ phase \in {"run", "done"} /\ nint < MaxInterrupts
   /\ IF Planned THEN PlanHere ELSE TRUE
   /\ phase' = "crashed" /\ ctl' = "start" /\ stack' = <<>>
   /\ lp' = NoneP /\ lpl' = 0 /\ old' = NoneP
@@ -281,7 +282,7 @@ FullSet == WalkSet(W.root, Levels, 0, FALSE)
 
 Must       == Range(W.must)         \* meta tile inset by 1/10 pixel of ITS level overlaps the coverage
 MustCoarse == Range(W.mustcoarse)   \* ... inset by 1/10 pixel of the coarsest level walked
-MustNot    == Range(W.mustnot)      \* meta tile (with skip_geoms: every geometry-tested ancestor) disjoint from it
+Allowed    == Range(W.allowed)      \* meta tile (with skip_geoms: some geometry-tested ancestor) at least touches it
 HandedNow  == Range(handed)
 HandedAll  == before \cup HandedNow
 
@@ -293,7 +294,7 @@ TypeOK ==
             ELSE Len(stack) - (IF Top.pc \in {"decide", "stepup"} THEN 0 ELSE 1))
 
 \* nothing outside the coverage is ever requested
-NoOutside == HandedAll \cap MustNot = {}
+NoOutside == HandedAll \subseteq Allowed
 
 \* a run that completes without interruption has requested every selected tile
 CompleteRunExact  == (phase = "done" /\ nint = 0 /\ wid \notin Excused) => Must \subseteq HandedNow
